@@ -272,6 +272,15 @@ class Interp:
             if c[0] == "=" :
                 if "onmatch" in c[2] or set(c[2]) & {"latch", "onchange", "increase", "decrease", "notnone", "asbool"}:
                     raise Undefined("onmatch look-ahead across a voting assignment")
+                if self.error_policy is not None:
+                    # an assignment whose right side raises makes its component vote False
+                    if self._has_state(c[4]):
+                        raise Undefined("onmatch look-ahead across a stateful assignment")
+                    try:
+                        self.val(c[4])
+                    except ModelError:
+                        votes.append(False)
+                        continue
                 votes.append(NEUTRAL)
                 continue
             if c[0] == "->":
